@@ -54,8 +54,19 @@ def run(tier):
     g = sqlgen.Gen(random.Random(common.env.seed() * 49979687 + 9), alias_p=0.7)
     kinds = ["insert", "insert", "insert_cols", "ctas", "create_view", "bare", "update_from", "merge", "with_insert", "with_insert"]
     cases, meta = [], []
-    for i in range(n):
-        st = g.statement(rnd.choice([1, 2, 2, 3]), kinds=kinds)
+    from vlib.sqlgen import Base, Group, Item, Select, Stmt, col
+    extra = []
+    for i in range(18 if tier == "quick" else 150):
+        # two tables with one bare name from different schemas in one FROM clause: the un-aliased one is referred to by its bare name,
+        # the other one by its alias (or the other way round)
+        nm = f"tb_sn{i}"
+        s1, s2 = rnd.sample(["sa", "sb", None], 2)
+        first_plain = i % 2 == 0
+        a, b = (Base(nm, s1, None), Base(nm, s2, f"x{i}a")) if first_plain else (Base(nm, s1, f"x{i}a"), Base(nm, s2, None))
+        q = Select([Item(col("c_1", a.key()), "o_1"), Item(col("c_2", b.key()), "o_2"), Item(col("c_3", a.key()))], [Group(a, [(rnd.choice(["inner", "left"]), b, "on")])])
+        extra.append(Stmt(rnd.choice(["insert", "ctas"]), Base(f"tb_sw{i}"), q))
+    for i in range(n + len(extra)):
+        st = g.statement(rnd.choice([1, 2, 2, 3]), kinds=kinds) if i < n else extra[i - n]
         sql = sqlgen.render(st)
         tags = sorted(st.tags() | set(sqlgen.risk(st)))
         tables = sorted({rel.name for _, rel in sqlgen.all_rels(st) if rel.kind == "base"})
